@@ -457,6 +457,8 @@ impl BufferedDatabaseWriter {
         thread::spawn(move || {
             while let Some(mut buffer) = receive_buffer.blocking_recv() {
                 let result = Self::process_batch_write(&mut buffer, &conn);
+                #[cfg(feature = "verif")]
+                verif_faults::before_ack();
                 match result {
                     Ok(_) => {
                         for msg in buffer {
@@ -607,105 +609,163 @@ impl BufferedDatabaseWriter {
         let mut daily_log = DailyMutations::default();
         let mut optimize = false; //flag to run the optimize task outside a transaction
 
+        #[cfg(feature = "verif")]
+        verif_faults::batch(buffer);
+        #[cfg(feature = "verif")]
+        verif_faults::point(verif_faults::P_BEGIN, 0)?;
         conn.execute("BEGIN TRANSACTION", [])?;
         for query in buffer {
             match query {
                 WriteMessage::Deletion(query, _) => {
+                    #[cfg(feature = "verif")]
+                    verif_faults::group(conn, 1);
                     if let Err(e) = query.delete(conn) {
                         conn.execute("ROLLBACK", [])?;
                         return Err(e);
                     }
+                    #[cfg(feature = "verif")]
+                    verif_faults::group_end(conn, 1);
                     query.update_daily_logs(&mut daily_log);
                 }
                 WriteMessage::Mutation(query, _) => {
+                    #[cfg(feature = "verif")]
+                    verif_faults::group(conn, 2);
                     if let Err(e) = query.write(conn) {
                         conn.execute("ROLLBACK", [])?;
                         return Err(e);
                     }
+                    #[cfg(feature = "verif")]
+                    verif_faults::group_end(conn, 2);
                     query.update_daily_logs(&mut daily_log);
                 }
 
                 WriteMessage::MutationStream(query, _) => {
+                    #[cfg(feature = "verif")]
+                    verif_faults::group(conn, 3);
                     if let Err(e) = query.write(conn) {
                         conn.execute("ROLLBACK", [])?;
                         return Err(e);
                     }
+                    #[cfg(feature = "verif")]
+                    verif_faults::group_end(conn, 3);
                     query.update_daily_logs(&mut daily_log);
                 }
 
                 WriteMessage::Nodes(node, _, _) => {
                     for nti in node {
+                        #[cfg(feature = "verif")]
+                        verif_faults::group(conn, 4);
                         if let Err(e) = nti.write(conn) {
                             conn.execute("ROLLBACK", [])?;
                             return Err(e);
                         }
+                        #[cfg(feature = "verif")]
+                        verif_faults::group_end(conn, 4);
                         nti.update_daily_logs(&mut daily_log);
                     }
                 }
 
                 WriteMessage::Edges(edges, _, _) => {
                     for edge in edges {
+                        #[cfg(feature = "verif")]
+                        verif_faults::group(conn, 5);
                         if let Err(e) = edge.write(conn) {
                             conn.execute("ROLLBACK", [])?;
                             return Err(e);
                         }
+                        #[cfg(feature = "verif")]
+                        verif_faults::group_end(conn, 5);
                     }
                 }
 
                 WriteMessage::RoomMutation(query, _) => {
+                    #[cfg(feature = "verif")]
+                    verif_faults::group(conn, 6);
                     if let Err(e) = query.write(conn) {
                         conn.execute("ROLLBACK", [])?;
                         return Err(e);
                     }
+                    #[cfg(feature = "verif")]
+                    verif_faults::group_end(conn, 6);
                     query.update_daily_logs(&mut daily_log);
                 }
 
                 WriteMessage::RoomMutationStream(query, _) => {
+                    #[cfg(feature = "verif")]
+                    verif_faults::group(conn, 7);
                     if let Err(e) = query.write(conn) {
                         conn.execute("ROLLBACK", [])?;
                         return Err(e);
                     }
+                    #[cfg(feature = "verif")]
+                    verif_faults::group_end(conn, 7);
                     query.update_daily_logs(&mut daily_log);
                 }
 
                 WriteMessage::RoomNode(room_node, _) => {
+                    #[cfg(feature = "verif")]
+                    verif_faults::group(conn, 8);
                     if let Err(e) = room_node.write(conn) {
                         conn.execute("ROLLBACK", [])?;
                         return Err(e);
                     }
+                    #[cfg(feature = "verif")]
+                    verif_faults::group_end(conn, 8);
                     //room add does not update_daily_log because room definitions are allways synchronized at the start of a p2p connection
                 }
                 WriteMessage::Write(stmt, _) => {
+                    #[cfg(feature = "verif")]
+                    verif_faults::group(conn, 9);
                     if let Err(e) = stmt.write(conn) {
                         conn.execute("ROLLBACK", [])?;
                         return Err(e);
                     }
+                    #[cfg(feature = "verif")]
+                    verif_faults::group_end(conn, 9);
                     //write is a generic query and is outside the daily_log feature
                 }
                 WriteMessage::ComputeDailyLog(daily_mutations, _) => {
+                    #[cfg(feature = "verif")]
+                    verif_faults::group(conn, 10);
                     if let Err(e) = daily_mutations.compute(conn) {
                         conn.execute("ROLLBACK", [])?;
                         return Err(e);
                     }
+                    #[cfg(feature = "verif")]
+                    verif_faults::group_end(conn, 10);
                 }
                 WriteMessage::DeleteEdges(edges, _) => {
+                    #[cfg(feature = "verif")]
+                    verif_faults::group(conn, 11);
                     if let Err(e) = EdgeDeletionEntry::delete_all(edges, &mut daily_log, conn) {
                         conn.execute("ROLLBACK", [])?;
                         return Err(e);
                     }
+                    #[cfg(feature = "verif")]
+                    verif_faults::group_end(conn, 11);
                 }
                 WriteMessage::DeleteNodes(nodes, _) => {
+                    #[cfg(feature = "verif")]
+                    verif_faults::group(conn, 12);
                     if let Err(e) = NodeDeletionEntry::delete_all(nodes, &mut daily_log, conn) {
                         conn.execute("ROLLBACK", [])?;
                         return Err(e);
                     }
+                    #[cfg(feature = "verif")]
+                    verif_faults::group_end(conn, 12);
                 }
                 WriteMessage::Optimize => optimize = true,
             }
         }
         //at the end of the batch, update the daily log with all room dates that needs to be recomputed
+        #[cfg(feature = "verif")]
+        verif_faults::point(verif_faults::P_MARKS, 0)?;
         daily_log.write(conn)?;
+        #[cfg(feature = "verif")]
+        verif_faults::point(verif_faults::P_COMMIT, 0)?;
         conn.execute("COMMIT", [])?;
+        #[cfg(feature = "verif")]
+        verif_faults::point(verif_faults::P_COMMITTED, 0)?;
 
         // run the PRAGMA optimize; outside the transaction
         if optimize {
@@ -817,6 +877,180 @@ pub fn add_base64_function(db: &Connection) -> rusqlite::Result<()> {
     )?;
 
     Ok(())
+}
+
+/// verification hook H4 (feature `verif` only): instrumentation points of the batch writer.
+/// Unarmed (the default) every function returns at once and nothing is counted. Armed by a
+/// harness, the k-th point hit either aborts the process (MODE_KILL) or makes a statement fail
+/// (MODE_FAIL): at P_BEGIN / P_MARKS / P_COMMIT an injected `rusqlite::Error` is returned in
+/// place of the statement that follows (same `?` exit as that statement), at P_GROUP the
+/// connection is switched to `query_only` so that the group's first write statement really
+/// fails inside SQLite and the code's own error exit runs; the switch is undone at the next
+/// point that sees the connection.
+#[cfg(feature = "verif")]
+pub mod verif_faults {
+    use super::WriteMessage;
+    use rusqlite::Connection;
+    use std::io::Write;
+    use std::sync::atomic::{AtomicBool, AtomicU64, AtomicU8, Ordering::SeqCst};
+    use std::sync::Mutex;
+
+    pub const P_BEGIN: u8 = 1; // before BEGIN TRANSACTION
+    pub const P_GROUP: u8 = 2; // before a statement group (one fallible call of an arm)
+    pub const P_GROUP_END: u8 = 3; // after a statement group
+    pub const P_MARKS: u8 = 4; // before daily_log.write
+    pub const P_COMMIT: u8 = 5; // before COMMIT
+    pub const P_COMMITTED: u8 = 6; // after COMMIT
+    pub const P_ACK: u8 = 7; // writer thread, before the acknowledgement loop
+    pub const T_MSG: u8 = 8; // trace only: kind of a message of the batch about to be written
+    pub const T_LEN: u8 = 9; // trace only: number of statement groups of that message
+
+    pub const MODE_RECORD: u8 = 0;
+    pub const MODE_KILL: u8 = 1;
+    pub const MODE_FAIL: u8 = 2;
+
+    static ARMED: AtomicBool = AtomicBool::new(false);
+    static MODE: AtomicU8 = AtomicU8::new(0);
+    static TARGET: AtomicU64 = AtomicU64::new(0);
+    static GRACE_MS: AtomicU64 = AtomicU64::new(0);
+    static HITS: AtomicU64 = AtomicU64::new(0);
+    static POISONED: AtomicBool = AtomicBool::new(false);
+    /// 0 = nothing injected, 1 = the injected failure reached the code, 2 = the group had no write statement
+    static FIRED: AtomicU8 = AtomicU8::new(0);
+    static TRACE: Mutex<Vec<(u8, u8)>> = Mutex::new(Vec::new());
+    static TRACE_FILE: Mutex<Option<std::fs::File>> = Mutex::new(None);
+
+    /// start counting hits; `k` = 1-based index of the hit that fires (0 = never).
+    /// every hit is appended to `trace_file` (2 bytes: point, arm) before it takes effect.
+    /// MODE_KILL: the writer thread stops at the point for `grace_ms` (so that acknowledgements
+    /// already sent can be observed by the harness) and the process is then aborted
+    pub fn arm(mode: u8, k: u64, grace_ms: u64, trace_file: Option<std::fs::File>) {
+        MODE.store(mode, SeqCst);
+        TARGET.store(k, SeqCst);
+        GRACE_MS.store(grace_ms, SeqCst);
+        HITS.store(0, SeqCst);
+        FIRED.store(0, SeqCst);
+        TRACE.lock().unwrap().clear();
+        *TRACE_FILE.lock().unwrap() = trace_file;
+        ARMED.store(true, SeqCst);
+    }
+    pub fn disarm() {
+        ARMED.store(false, SeqCst);
+    }
+    pub fn hits() -> u64 {
+        HITS.load(SeqCst)
+    }
+    pub fn fired() -> u8 {
+        FIRED.load(SeqCst)
+    }
+    pub fn trace() -> Vec<(u8, u8)> {
+        TRACE.lock().unwrap().clone()
+    }
+
+    fn record(point: u8, arm: u8) {
+        TRACE.lock().unwrap().push((point, arm));
+        if let Some(f) = TRACE_FILE.lock().unwrap().as_mut() {
+            let _ = f.write_all(&[point, arm]);
+        }
+    }
+
+    /// returns true when this hit is the armed one
+    fn hit(point: u8, arm: u8) -> bool {
+        let n = HITS.fetch_add(1, SeqCst) + 1;
+        record(point, arm);
+        let fire = n == TARGET.load(SeqCst);
+        if fire && MODE.load(SeqCst) == MODE_KILL {
+            std::thread::sleep(std::time::Duration::from_millis(GRACE_MS.load(SeqCst)));
+            std::process::abort();
+        }
+        fire && MODE.load(SeqCst) == MODE_FAIL
+    }
+
+    fn injected() -> rusqlite::Error {
+        rusqlite::Error::SqliteFailure(
+            rusqlite::ffi::Error::new(rusqlite::ffi::SQLITE_BUSY),
+            Some("verif: injected statement failure".to_string()),
+        )
+    }
+
+    fn unpoison(conn: &Connection, manifest: u8) {
+        if POISONED.swap(false, SeqCst) {
+            let _ = conn.pragma_update(None, "query_only", 0);
+            if FIRED.load(SeqCst) == 0 {
+                FIRED.store(manifest, SeqCst);
+            }
+        }
+    }
+
+    /// composition of the batch about to be written (trace only, not a fault point)
+    pub fn batch(buffer: &[WriteMessage]) {
+        if !ARMED.load(SeqCst) {
+            return;
+        }
+        for msg in buffer {
+            let (kind, groups) = match msg {
+                WriteMessage::Deletion(..) => (1, 1),
+                WriteMessage::Mutation(..) => (2, 1),
+                WriteMessage::MutationStream(..) => (3, 1),
+                WriteMessage::Nodes(v, _, _) => (4, v.len()),
+                WriteMessage::Edges(v, _, _) => (5, v.len()),
+                WriteMessage::RoomMutation(..) => (6, 1),
+                WriteMessage::RoomMutationStream(..) => (7, 1),
+                WriteMessage::RoomNode(..) => (8, 1),
+                WriteMessage::Write(..) => (9, 1),
+                WriteMessage::ComputeDailyLog(..) => (10, 1),
+                WriteMessage::DeleteEdges(..) => (11, 1),
+                WriteMessage::DeleteNodes(..) => (12, 1),
+                WriteMessage::Optimize => (13, 0),
+            };
+            record(T_MSG, kind);
+            record(T_LEN, groups.min(255) as u8);
+        }
+    }
+
+    /// a point in front of a single statement that is left through `?`
+    pub fn point(point: u8, arm: u8) -> std::result::Result<(), rusqlite::Error> {
+        if !ARMED.load(SeqCst) {
+            return Ok(());
+        }
+        if hit(point, arm) && (point == P_BEGIN || point == P_MARKS || point == P_COMMIT) {
+            FIRED.store(1, SeqCst);
+            return Err(injected());
+        }
+        Ok(())
+    }
+
+    /// in front of a statement group
+    pub fn group(conn: &Connection, arm: u8) {
+        if !ARMED.load(SeqCst) {
+            return;
+        }
+        unpoison(conn, 1);
+        if hit(P_GROUP, arm) {
+            let _ = conn.pragma_update(None, "query_only", 1);
+            POISONED.store(true, SeqCst);
+        }
+    }
+
+    /// behind a statement group that returned Ok
+    pub fn group_end(conn: &Connection, arm: u8) {
+        if !ARMED.load(SeqCst) {
+            return;
+        }
+        unpoison(conn, 2);
+        let _ = hit(P_GROUP_END, arm);
+    }
+
+    /// writer thread: process_batch_write has returned, nothing is acknowledged yet
+    pub fn before_ack() {
+        if !ARMED.load(SeqCst) {
+            return;
+        }
+        if POISONED.load(SeqCst) && FIRED.load(SeqCst) == 0 {
+            FIRED.store(1, SeqCst);
+        }
+        let _ = hit(P_ACK, 0);
+    }
 }
 
 #[cfg(test)]
